@@ -152,11 +152,11 @@ func Items(quick bool) []Item {
 	var out []Item
 	for i, p := range Patterns(quick) {
 		rules := append([]m.Rule{{Name: "T", Pattern: p}}, catchAll()...)
-		out = append(out, Item{ID: fmt.Sprintf("op%05d", i), Family: "operator", Def: m.Def{"Root": rules}, Alphabet: []string{"a", "b", "é", "\n"}, MaxLen: 5, Pattern: p})
+		out = append(out, Item{ID: fmt.Sprintf("op%05d", i), Family: "operator", Def: m.Def{"Root": rules}, Alphabet: []string{"a", "b", "é", "\n", "\xc3"}, MaxLen: 5, Pattern: p})
 		// the same tree below a catch-all for one character, and elided (lower-case name)
 		if i%7 == 0 {
 			rules2 := append([]m.Rule{{Name: "A", Pattern: `a`}, {Name: "t", Pattern: p}}, catchAll()[1:]...)
-			out = append(out, Item{ID: fmt.Sprintf("oq%05d", i), Family: "operator-elided", Def: m.Def{"Root": rules2}, Alphabet: []string{"a", "b", "é", "\n"}, MaxLen: 5, Pattern: p})
+			out = append(out, Item{ID: fmt.Sprintf("oq%05d", i), Family: "operator-elided", Def: m.Def{"Root": rules2}, Alphabet: []string{"a", "b", "é", "\n", "\xc3"}, MaxLen: 5, Pattern: p})
 		}
 	}
 	every := 1
